@@ -109,6 +109,9 @@ def line_level_scenarios(tier, base):
         out += tscen.line_level(sp, "line", 1 if tier == "quick" else 2)
         if tier == "thorough" and "present" in sp["name"]:
             out += tscen.line_level(sp, "opcode", 4)
+        if tier == "thorough" and sp["name"] in ("M1||M2 doc present", "M1||Da doc present", "M2||R doc present"):
+            # every execution with at most TWO pre-emptions at source-line granularity
+            out += [dict(j, time_cap=2400) for j in tscen.line_level(sp, "line", 16, lbound=2)]
     return out
 
 
